@@ -81,6 +81,7 @@ REQUIRED = {
 	"boundscheck_active": 1, "boundscheck_cases": 200,
 	"rc_strings": 2000, "rc_tensors": 500, "rc_maps_enumerated": 40,
 	"rc_histories": 50, "rc_history_prior_raises": 30,
+	"unchunk_huge_calls": 2, "chunk_mixed_dtype_calls": 20,
 	"characters_layout_calls": 500, "nonplain_layout_cases": 200,
 	"unchunk_k1_overlap": 50, "unchunk_k2": 50, "unchunk_k3": 50,
 	"unchunk_many": 50, "unchunk_odd_overlap": 50, "unchunk_3lead": 50,
@@ -1080,6 +1081,14 @@ def chunk_call(cls, params, rec):
 	judge = params.get("judge")
 	todo = [i for i in range(B) if judge is None or i == judge]
 	done = {}
+	# sequences of one call need not share a dtype (a one-hot int tensor next
+	# to a float PWM): the first one narrow, the later ones wide
+	mixed = params.get("mixed_dtypes")
+	if mixed is None:
+		mixed = B >= 2 and len(lead) == 1 and gen.pyrng("C15mixed", repr(
+			sorted((k_, repr(v_)) for k_, v_ in params.items() if k_ not in (
+			"judge", "mixed_dtypes")))).randrange(5) == 0
+	params = dict(params, mixed_dtypes=bool(mixed))
 
 	def cparams(i):
 		p = dict(params)
@@ -1120,6 +1129,10 @@ def chunk_call(cls, params, rec):
 	covs = [size + (k - 1) * step if k else 0 for k in ks]
 	dt = getattr(torch, dtname)
 	xs = [torch.from_numpy(a).type(dt) for a in arrays]
+	if mixed and max(int(a.max()) if a.size else 0 for a in arrays) < 2 ** 31:
+		xs = [torch.from_numpy(a).type(torch.int32 if i == 0 else
+			torch.float64) for i, a in enumerate(arrays)]
+		rec.count("chunk_mixed_dtype_calls")
 	# same values in other memory layouts (views into larger storages)
 	lay = gen.layout_of(params)
 	xs = [gen.relayout(x, lay)[0] for x in xs]
@@ -1360,6 +1373,59 @@ def run_chunk_misc(unit, rec):
 		for it in range(unit["n"]):
 			case_pipeline("chunk-pipeline", {"kind": "pipeline",
 				"seed": unit["seed"], "k": unit.get("k", 0), "it": it}, rec)
+	elif what == "huge":
+		for it in range(unit["n"]):
+			size = r.choice([40, 50, 64])
+			overlap = r.choice([0, size // 2])
+			step = size - overlap
+			# length - size just above 2**24 and one short of / exactly on /
+			# one past a multiple of the step
+			kk = (2 ** 24) // step + r.randint(1, 50)
+			L0 = size + kk * step + r.choice([-1, 0, 1, step - 1])
+			case_huge("chunk-huge", {"kind": "huge", "size": size,
+				"overlap": overlap, "lengths": [L0, size + 3 * step + 1]}, rec)
+
+
+def case_huge(cls, params, rec):
+	"""A sequence of more than 2**24 positions followed by a short one (chunk
+	counts and offsets past the exactness of single precision)."""
+	from tangermeme import utils
+	size, overlap = params["size"], params["overlap"]
+	step = size - overlap
+	lengths = params["lengths"]
+	xs = [(torch.arange(L, dtype=torch.int64) * (7 + 2 * i) % 251).type(
+		torch.uint8)[None] for i, L in enumerate(lengths)]
+	wit = {"size": size, "overlap": overlap, "lengths": lengths,
+		"values": "x_i[0, p] = p * (7 + 2i) mod 251 (uint8)"}
+	st, Y = gen.call(utils.chunk, xs, size=size, overlap=overlap)
+	if st == "raise":
+		rec.violation(cls, params, dict(wit, what="chunk raised",
+			error=repr(Y)[:300]), mech="C15/chunk-raised")
+		return
+	st, out = gen.call(utils.unchunk, Y, lengths=lengths, overlap=overlap)
+	if st == "raise":
+		rec.violation(cls, params, dict(wit, what="unchunk raised",
+			error=repr(out)[:300]), mech="C15/unchunk-raised")
+		return
+	if not isinstance(out, (list, tuple)) or len(out) != len(lengths):
+		rec.violation(cls, params, dict(wit, what="unchunk returned %s" %
+			type(out).__name__), mech="C15/unchunk-structure")
+		return
+	for i, (x, g, L) in enumerate(zip(xs, out, lengths)):
+		cov = size + (n_complete(L, size, step) - 1) * step
+		if tuple(g.shape) != (1, cov) or not torch.equal(g.type(torch.uint8),
+			x[:, :cov]):
+			bad = None
+			if tuple(g.shape) == (1, cov):
+				bad = int((g.type(torch.uint8) != x[:, :cov]).nonzero()[0][1])
+			rec.violation(cls, params, dict(wit, what="sequence %d: unchunk("
+				"chunk(x)) has shape %s, expected (1, %d)%s" % (i,
+				tuple(g.shape), cov, "" if bad is None else "; first wrong "
+				"position %d" % bad), sequence=i),
+				mech="C15/roundtrip-mismatch-huge")
+			return
+	rec.count("unchunk_huge_calls")
+	rec.held(cls, params, nontrivial=True)
 
 
 def case_pipeline(cls, params, rec):
@@ -1442,6 +1508,8 @@ def run_case(cls, params, rec):
 		chunk_call(cls, params, rec)
 	elif kind == "pipeline":
 		case_pipeline(cls, params, rec)
+	elif kind == "huge":
+		case_huge(cls, params, rec)
 	else:
 		raise ValueError("unknown case kind %r" % (kind,))
 
@@ -1537,6 +1605,8 @@ def plan(tier, seed):
 		"weight": 2})
 	units.append({"cls": "chunk-misc", "what": "nolengths", "seed": seed,
 		"weight": 2})
+	units.append({"cls": "chunk-misc", "what": "huge", "seed": seed,
+		"n": 2 if quick else 12, "weight": 30})
 	for k in range(2 if quick else 16):
 		units.append({"cls": "chunk-misc", "what": "pipeline", "seed": seed,
 			"k": k, "n": 60 if quick else 250, "weight": 10})
